@@ -90,6 +90,15 @@ CHECKS = {
                      "sub-states. Deliveries come from recording applications, answers and Failed-AVP content from "
                      "the bytes on the socket decoded by the reference codec.",
                 ref="4 C08", note=NODE_NOTE + "; validate_received_request_avps on."),
+    "C09": dict(cat="exploration", tech="lockstep node harness with a deferring application; per submission the "
+                "exception of send_answer and the socket carrying the answer bytes are compared with ground truth "
+                "(socket the request arrived on, its readiness)",
+                text="1..3 peers x 1..4 pending requests (equal hop-by-hop ids on different connections included) x "
+                     "submission orders x fault {none, close, reset, DPR, reconnect, second connection of the same "
+                     "identity before/after the requests} at every point between arrival and submission, with "
+                     "repeated submissions; thorough adds concurrent submissions from several threads with a "
+                     "free-running I/O loop.",
+                ref="4 C09", note=NODE_NOTE + "; hop-by-hop ids unique per connection only."),
 }
 
 NOT_YET = "check not built yet in this round (planned in DESIGN.md section 4); no claim is made"
